@@ -294,8 +294,37 @@ class Unit:
         return self._orig_store(arr, idx, v, st, src_ty)
 
     # ---- calls (modular: the callee's contract, never its body)
+    def call_memcpy(self, ev, e, st):
+        """memcpy(dst, src, n) over byte arrays (all kernel uses copy uint8_t buffers): both ranges must lie inside the
+        extents of their arrays (S.memcpy), the destination range takes the source bytes, everything else is unchanged"""
+        d = ev.ev(e[2][0], st)
+        s_ = ev.ev(e[2][1], st)
+        n = to_int(ev.ev(e[2][2], st))
+        if d.k != "ptr" or s_.k != "ptr" or d.arr not in st.arrs or s_.arr not in st.arrs:
+            raise EvalError("memcpy on something that is not a parameter array")
+        if ev.elem.get(d.arr) not in ("u8", "i8") or ev.elem.get(s_.arr) not in ("u8", "i8"):
+            raise EvalError("memcpy on non-byte arrays")
+        for role, v in (("destination", d), ("source", s_)):
+            ext = ev.extents.get(v.arr)
+            if v.arr in ev.unchecked:
+                continue
+            if ext is None:
+                ev.oblige("S.memcpy", z3.And(n >= 0, v.t >= 0), st, "memcpy %s %s[...]: offset and size non-negative (no extent stated)" % (role, v.arr))
+            else:
+                ev.oblige("S.memcpy", z3.And(n >= 0, v.t >= 0, v.t + n <= ext), st,
+                          "memcpy %s %s[off .. off+n) stays inside the array" % (role, v.arr))
+        old, src = st.arrs[d.arr], st.arrs[s_.arr]
+        new = ev.fresh(d.arr + "_memcpy", ev.arr_sort(d.arr))
+        q = z3.Int("q?memcpy")
+        st.assume(z3.ForAll([q], z3.Select(new, q) == z3.If(z3.And(d.t <= q, q < d.t + n),
+                                                             z3.Select(src, s_.t + q - d.t), z3.Select(old, q))))
+        st.arrs[d.arr] = new
+        return Val(IV(0), "opaque")
+
     def handle_call(self, ev, e, st):
         name = e[1]
+        if name == "memcpy" and len(e[2]) == 3 and "memcpy" not in self.contracts:
+            return self.call_memcpy(ev, e, st)
         ent = self.contracts.get(self.c.calls.get(name, name))
         if ent is None:
             raise EvalError("call to %s without a contract" % name)
